@@ -47,7 +47,7 @@ UNIT = dict(
         CHECKSUM_ITEM,
         dict(kind="region", file=WR, within="impl Walrus / fn batch_read_for_topic",
              start="// 4) Parse entries from buffers in plan order", end="// 5) Commit progress (optional)",
-             sig="fn batch_read_parse(plan: &Vec<ReadPlan>, buffers: &Vec<Vec<u8>>, max_bytes: usize, initial_trim_in: usize) -> (ret: IoResult<%s>)" % OUTS,
+             sig="fn batch_read_parse(plan: &Vec<ReadPlan>, buffers: &Vec<Vec<u8>>, max_bytes: usize, initial_trim_in: usize, cons_out: &mut Ghost<Seq<usize>>) -> (ret: IoResult<%s>)" % OUTS,
              pre="let mut initial_trim = initial_trim_in;\n",
              post="Ok((entries, total_data_bytes, final_block_idx, final_block_offset, final_tail_block_id, final_tail_offset, entries_parsed, saw_tail))",
              rules=ENUM_FOR + RKYV_RULES + IOERR_RULES + MISC_RULES,
@@ -62,13 +62,19 @@ UNIT = dict(
                  ("C03:parse_budget_or_single", "ret matches Ok(o) ==> (payload_sum(o.0@) <= max_bytes || o.0.len() <= 1)"),
                  ("C15:parse_count_covers_returned", "ret matches Ok(o) ==> o.0.len() <= o.6"),
                  ("C01,C03,C15:parse_returns_every_parsed_entry", "ret matches Ok(o) ==> (initial_trim_in == 0 ==> o.0.len() == o.6)"),
+                 ("C03:parse_returns_at_least_one_entry_when_the_first_range_starts_with_a_whole_entry", "ret matches Ok(o) ==> ((initial_trim_in == 0 && plan@.len() > 0 && entry_ok_d(buffers@[0]@, 0)) ==> o.0.len() >= 1)"),
+                 ("C01:parse_returns_exactly_the_payloads_of_the_entries_it_walked_over_in_order",
+                  "ret matches Ok(o) ==> (initial_trim_in == 0 ==> all_packed(buffers@, final(cons_out)@) && entries_view(o.0@) == all_payloads(buffers@, final(cons_out)@, final(cons_out)@.len() as int))"),
              ],
-             hints=[dict(before="        for plan_idx in 0..plan.len()", text="        let ghost mut consumed: Seq<usize> = Seq::empty(); // ghost: where parsing of each range stopped"),
-                    dict(after_loop=1, text="            proof { lemma_ranges_done_push(consumed, plan@, buffers@, plan_idx as int, buf_offset); consumed = consumed.push(buf_offset); }"),
+             hints=[dict(before="        for plan_idx in 0..plan.len()", text="        let ghost mut consumed: Seq<usize> = Seq::empty(); // ghost: where parsing of each range stopped\n        proof { assert(entries_view(entries@) =~= Seq::<Seq<u8>>::empty()); }"),
+                    dict(after_loop=1, text="            proof { lemma_ranges_done_push(consumed, plan@, buffers@, plan_idx as int, buf_offset); if initial_trim_in == 0 { lemma_all_payloads_push(buffers@, consumed, buf_offset); lemma_all_packed_push(buffers@, consumed, buf_offset); } consumed = consumed.push(buf_offset); }"),
+                    dict(after_loop=0, text="        *cons_out = Ghost(consumed);"),
+                    dict(after="aligned.extend_from_slice(&buffer[buf_offset + 2..buf_offset + 2 + meta_len]);", text="                proof { assert(aligned@ =~= buffer@.subrange(buf_offset + 2, buf_offset + 2 + meta_len)); }"),
+                    dict(before="                buf_offset += entry_consumed;", text="                proof { if initial_trim_in == 0 { lemma_packed_extend(buffer@, 0, buf_offset as int); } }"),
                     dict(before="entries.push(Entry { data: final_data });", text="                    let ghost es0 = entries@;"),
-                    dict(after="entries.push(Entry { data: final_data });", text="                    proof { lemma_payload_sum_push(es0, entries@.last()); }")],
+                    dict(after="entries.push(Entry { data: final_data });", text="                    proof { lemma_payload_sum_push(es0, entries@.last()); lemma_view_push(es0, entries@.last()); }")],
              loops={
-                 0: dict(kind="for", invariant_except_break=[
+                 0: dict(kind="for", ensures=[("C03:parse_returns_at_least_one_entry_when_the_first_range_starts_with_a_whole_entry", "(initial_trim_in == 0 && plan@.len() > 0 && entry_ok_d(buffers@[0]@, 0)) ==> entries.len() >= 1")], invariant_except_break=[
                      # entries of range p are only looked at after every earlier range was delivered to the end of its block
                      ("C01:inv_no_range_skipped", "ranges_done(consumed, plan@, buffers@, plan_idx as int)"),
                  ], invariant=[
@@ -80,6 +86,8 @@ UNIT = dict(
                      ("C03:inv_payload_le_total", "payload_sum(entries@) <= total_data_bytes"),
                      ("C15:inv_parsed_ge_returned", "entries.len() <= entries_parsed"),
                      ("C01,C03,C15:inv_every_parsed_entry_returned", "initial_trim_in == 0 ==> entries.len() == entries_parsed && initial_trim == 0"),
+                     ("C01:parse_returns_exactly_the_payloads_of_the_entries_it_walked_over_in_order", "initial_trim_in == 0 ==> all_packed(buffers@, consumed) && entries_view(entries@) == all_payloads(buffers@, consumed, consumed.len() as int)"),
+                     ("C03:parse_returns_at_least_one_entry_when_the_first_range_starts_with_a_whole_entry", "((initial_trim_in == 0 && plan@.len() > 0 && entry_ok_d(buffers@[0]@, 0)) && plan_idx > 0) ==> entries.len() >= 1"),
                      ("", "entries_parsed as int <= plan_idx * 0x40_0000"),
                      ("", "total_data_bytes as int <= plan_idx * 0x4000_0000"),
                  ]),
@@ -94,9 +102,12 @@ UNIT = dict(
                      ("C03:inv_payload_le_total", "payload_sum(entries@) <= total_data_bytes"),
                      ("C15:inv_parsed_ge_returned", "entries.len() <= entries_parsed"),
                      ("C01,C03,C15:inv_every_parsed_entry_returned", "initial_trim_in == 0 ==> entries.len() == entries_parsed && initial_trim == 0"),
+                     ("C01:parse_returns_exactly_the_payloads_of_the_entries_it_walked_over_in_order", "initial_trim_in == 0 ==> all_packed(buffers@, consumed) && consumed.len() == plan_idx && packed_d(buffer@, 0, buf_offset as int) && entries_view(entries@) == all_payloads(buffers@, consumed, consumed.len() as int) + payloads_d(buffer@, 0, buf_offset as int)"),
+                     ("C03:parse_returns_at_least_one_entry_when_the_first_range_starts_with_a_whole_entry", "((initial_trim_in == 0 && plan@.len() > 0 && entry_ok_d(buffers@[0]@, 0)) && (plan_idx > 0 || buf_offset > 0)) ==> entries.len() >= 1"),
                      ("", "entries_parsed as int <= plan_idx * 0x40_0000 + buf_offset / 256"),
                      ("", "total_data_bytes as int <= plan_idx * 0x4000_0000 + buf_offset"),
-                 ], decreases="buffer.len() - buf_offset"),
+                 ], ensures=[("C03:parse_returns_at_least_one_entry_when_the_first_range_starts_with_a_whole_entry", "(initial_trim_in == 0 && plan@.len() > 0 && entry_ok_d(buffers@[0]@, 0)) ==> entries.len() >= 1")],
+                    decreases="buffer.len() - buf_offset"),
              }),
     ],
 )
